@@ -137,3 +137,11 @@ Theorem C07_template_refs_closed_without_host_backends_refuted :
     ~ (forall r, In r (references st) -> In (snd r) (emitted_sections st)).
 Proof. exact template_refs_closed_without_host_backends_refuted. Qed.
 Print Assumptions C07_template_refs_closed_without_host_backends_refuted.
+
+(* the crt-list named by a bind (tcp service frontends with TLS, the https frontend) is a
+   file the instance writes for the same state: same emission condition on both sides. The
+   harness checks on every observed state that these files are on disk. *)
+Theorem C07_template_crtlists_written : forall (st : tstate) (r : string * string),
+  In r (file_refs st) -> In (snd r) (written_files st).
+Proof. exact template_crtlists_written. Qed.
+Print Assumptions C07_template_crtlists_written.
